@@ -1,8 +1,8 @@
 """C19 - Compiled templates produce what the template language defines.
 
-MC : specs/tmpl/TemplateLang.tla (Lex / Parse / Eval).  One TLC run both checks the invariants and
-     dumps the states for the replay (Gen_TemplateLang.cfg); a separate tiny run gives per-action
-     coverage.  TLC enumerates templates token by token in
+MC : specs/tmpl/TemplateLang.tla (Lex / Parse / Eval), MC_TemplateLang.cfg; the generation run
+     (Gen_TemplateLang.cfg) checks the same invariants again over every template it dumps for the
+     replay.  TLC enumerates templates token by token in
      focused families (character-level lexing, literal text, control flow, while, try, signals
      through finally, apply, loader, whitespace, ill-formed templates) and checks that the layers
      agree: a ParseError is reported exactly for an ill-formed main, error lines lie in the file,
@@ -92,11 +92,10 @@ def run_traces(ctx, n, err_rate, salt=0):
 
 def run(ctx):
     # 1. model checking: the layers of the specification agree on every enumerated template
-    #    (a) per-action coverage on the smallest family (-coverage slows this fold-heavy spec > 15x);
-    #    (b) the invariants are checked over *every* enumerated template by the generation run below
-    #        (Gen_TemplateLang.cfg carries the same INVARIANT lines; a violated one stops the check).
-    ctx.mc("tmpl", "TemplateLang", "MC_TemplateLang.cfg", overrides={"Grow": ctx.pick(0, 1)},
-           required_actions=["Add"], timeout=ctx.pick(400, 1500))
+    #    (MC config, bound one below the replay's; -coverage is unusable on this spec, see tmpl_driver.mc_plain);
+    #    the generation run below checks the same invariants over every replayed template as well.
+    D.mc_plain(ctx, "TemplateLang", "MC_TemplateLang.cfg", {"Fams": fams(FAMS), "Grow": ctx.pick(0, 1)},
+               timeout=ctx.pick(400, 1500))
     # 2. spec -> code: every enumerated template through the real compiler
     n = run_family_replay(ctx, FAMS, ctx.pick(1, 2))
     ctx.cov["exhaustive"] = True
